@@ -27,6 +27,9 @@ pub enum TOp {
     Copy(usize),
     /// OpSwitch on the k-th defined id with `cases` cases of `words` literal words each
     Switch(usize, usize, usize),
+    /// OpFunction / OpFunctionEnd (result type an undeclared id): the tracker must not care where a function starts or ends
+    Function,
+    FunctionEnd,
 }
 
 pub fn alphabet() -> Vec<TOp> {
@@ -64,7 +67,23 @@ pub fn alphabet() -> Vec<TOp> {
             }
         }
     }
+    a.push(TOp::Function);
+    a.push(TOp::FunctionEnd);
     a
+}
+
+/// the id the n-th allocation (n = 1, 2, ..) receives. Scheme 0 = ascending from 1; 1 = descending; 2 = around a
+/// 4096 threshold and out of order; 3 = across 2^22; 4 = just below 2^32; 5 = across 2^16
+pub const ID_SCHEMES: usize = 6;
+fn scheme_id(scheme: usize, n: u32) -> u32 {
+    match scheme {
+        0 => n,
+        1 => 59 - n,
+        2 => [3000, 3500, 4096, 5000, 4095, 4097, 6002, 2999, 8192, 1, 7000, 4094][(n as usize - 1) % 12] + 20_000 * ((n - 1) / 12),
+        3 => 0x0040_0000 - 3 + n,
+        4 => 0xFFFF_FFF0 + n,
+        _ => 0xFFFF - 3 + n,
+    }
 }
 
 #[derive(Clone, Copy, Debug, PartialEq, Eq, Hash, PartialOrd, Ord)]
@@ -108,6 +127,10 @@ fn lit_operand(ws: &[u32]) -> dr::Operand {
 
 /// builds the binary of a history and, with the reference tracker, what the parser must do with each instruction
 fn build(h: &[TOp]) -> Built {
+    build_s(h, 0)
+}
+
+fn build_s(h: &[TOp], scheme: usize) -> Built {
     let g = golden();
     let op = |n: &str| g.opcode(n) as u32;
     let mut words = model::header(0x0001_0500, 0, 64);
@@ -124,7 +147,7 @@ fn build(h: &[TOp]) -> Built {
         let exp;
         match *o {
             TOp::TInt(width, sign) => {
-                let id = next;
+                let id = scheme_id(scheme, next);
                 next += 1;
                 w.extend([op("TypeInt"), id, width, sign]);
                 exp = Exp::Accept(vec![dr::Operand::LiteralBit32(width), dr::Operand::LiteralBit32(sign)]);
@@ -132,7 +155,7 @@ fn build(h: &[TOp]) -> Built {
                 defined.push(id);
             }
             TOp::TFloat(width) => {
-                let id = next;
+                let id = scheme_id(scheme, next);
                 next += 1;
                 w.extend([op("TypeFloat"), id, width]);
                 exp = Exp::Accept(vec![dr::Operand::LiteralBit32(width)]);
@@ -140,7 +163,7 @@ fn build(h: &[TOp]) -> Built {
                 defined.push(id);
             }
             TOp::TBool => {
-                let id = next;
+                let id = scheme_id(scheme, next);
                 next += 1;
                 w.extend([op("TypeBool"), id]);
                 exp = Exp::Accept(vec![]);
@@ -151,9 +174,9 @@ fn build(h: &[TOp]) -> Built {
                     enabled = false;
                     break;
                 };
-                let id = next;
+                let id = scheme_id(scheme, next);
                 next += 1;
-                let lits: Vec<u32> = (0..n).map(|j| 0x1111_0000 * (j as u32 + 1) + id).collect();
+                let lits: Vec<u32> = (0..n).map(|j| (0x1111_0000 * (j as u32 + 1)).wrapping_add(id)).collect();
                 w.extend([if matches!(o, TOp::Const(..)) { op("Constant") } else { op("SpecConstant") }, t, id]);
                 w.extend(&lits);
                 exp = match need(&map, t) {
@@ -168,10 +191,10 @@ fn build(h: &[TOp]) -> Built {
                 defined.push(id);
             }
             TOp::ConstOfNext(n) => {
-                let id = next;
+                let id = scheme_id(scheme, next);
                 next += 1;
-                let t = next; // not declared yet: the following declaration (if any) gets this id
-                let lits: Vec<u32> = (0..n).map(|j| 0x3333_0000 * (j as u32 + 1) + id).collect();
+                let t = scheme_id(scheme, next); // not declared yet: the following declaration (if any) gets this id
+                let lits: Vec<u32> = (0..n).map(|j| (0x3333_0000 * (j as u32 + 1)).wrapping_add(id)).collect();
                 w.extend([op("Constant"), t, id]);
                 w.extend(&lits);
                 exp = match need(&map, t) {
@@ -187,7 +210,7 @@ fn build(h: &[TOp]) -> Built {
                     enabled = false;
                     break;
                 };
-                let id = next;
+                let id = scheme_id(scheme, next);
                 next += 1;
                 if matches!(o, TOp::Undef(_)) {
                     w.extend([op("Undef"), t, id]);
@@ -200,6 +223,16 @@ fn build(h: &[TOp]) -> Built {
                     map.insert(id, ty);
                 }
                 defined.push(id);
+            }
+            TOp::Function => {
+                let id = scheme_id(scheme, next);
+                next += 1;
+                w.extend([op("Function"), 0x7000_0001, id, 0, 0x7000_0002]);
+                exp = Exp::Accept(vec![dr::Operand::FunctionControl(rspirv::spirv::FunctionControl::NONE), dr::Operand::IdRef(0x7000_0002)]);
+            }
+            TOp::FunctionEnd => {
+                w.extend([op("FunctionEnd")]);
+                exp = Exp::Accept(vec![]);
             }
             TOp::Switch(k, cases, wpl) => {
                 let Some(&sel) = defined.get(k) else {
@@ -264,11 +297,15 @@ fn observe(words: &[u32]) -> Result<String, String> {
 }
 
 pub fn run_hist(h: &[TOp]) -> Step {
-    let b = build(h);
+    run_hist_s(h, 0)
+}
+
+pub fn run_hist_s(h: &[TOp], scheme: usize) -> Step {
+    let b = build_s(h, scheme);
     if !b.enabled {
         return Step { key: None, viols: vec![], outcomes: vec!["disabled".into()] };
     }
-    let rep = json!({"kind": "bytes", "bytes": hex(&model::words_to_bytes(&b.words)), "history": hist_str(h)});
+    let rep = json!({"kind": "bytes", "bytes": hex(&model::words_to_bytes(&b.words)), "history": hist_str(h), "id_scheme": scheme});
     let keyf = |class: &str| format!("C10:{}:{:?}", class, h.last().map(|o| format!("{:?}", o).split('(').next().unwrap().to_string()));
     let mut viols: Vec<Viol> = vec![];
     let mut outcomes = vec![];
@@ -339,6 +376,16 @@ pub fn run(tier: Tier) -> Run {
     run.add_all(b.viols.clone());
     run.merge_outcomes(&a.outcomes);
     run.merge_outcomes(&b.outcomes);
+    // ---- the same enumeration under other id assignments (descending, out of order around 4096, across 2^16 / 2^22,
+    //      just below 2^32): what an id stands for must not depend on its magnitude or on the order ids were first seen
+    let mut scheme_transitions = 0u64;
+    for scheme in 1..ID_SCHEMES {
+        let f = |h: &[TOp]| run_hist_s(h, scheme);
+        let e = xs::enumerate(&alpha, if scheme <= 2 { d_enum } else { d_enum - 1 }, &f);
+        run.add_all(e.viols.iter().map(|v| Viol { key: format!("{}:ids{}", v.key, scheme), what: format!("(id scheme {}) {}", scheme, v.what), replay: v.replay.clone() }));
+        scheme_transitions += e.transitions;
+    }
+    run.outcome("transitions_under_other_id_schemes", scheme_transitions);
 
     // ---- independence: parsing A and then B gives for B exactly what parsing B alone gives
     let mut hs: Vec<Vec<TOp>> = vec![vec![]];
